@@ -55,14 +55,38 @@ def run_property(ctx, mod, units, t0):
     if ctx.tier == "thorough" and wall:
         wall = wall * 3
     res = solve.solve_all(allobs, wall_ms=wall) if allobs else []
-    # retry unknowns once with a larger budget (keeps verdicts stable under load)
+    # retry unknowns once with a larger budget (keeps verdicts stable under load) - but first look for a failing input on the real code:
+    # an obligation with a replayed witness is a violation whatever a longer solver run would say
     unk = [i for i, x in enumerate(res) if x["result"] == "unknown"]
+    replay_cache = {}
     if unk and len(unk) <= 40:
-        again = solve.solve_all([allobs[i] for i in unk], wall_ms=(wall or solve.WALL_MS) * 3, rlimit=solve.RLIMIT * 4)
-        for i, x in zip(unk, again):
-            if x["result"] != "unknown":
-                x["backend"] += "+retry"
-                res[i] = x
+        from . import replay as _replay
+        owner = {}
+        k = 0
+        for r in results:
+            for o in r.obs:
+                owner[k] = r
+                k += 1
+        cand = [i for i in unk if owner[i].kind == "c" or getattr(owner[i], "replayer", None)]
+        early = solve.pool_map(lambda j: list(_replay.write(ctx, dict(unit=owner[cand[j]].name, obligation=res[cand[j]]["name"], result="unknown",
+                                                                      reason=res[cand[j]].get("reason", ""), ob=allobs[cand[j]],
+                                                                      unitres=owner[cand[j]], line=res[cand[j]].get("line")))),
+                               len(cand), 600) if cand else []
+        for j, i in enumerate(cand):
+            if isinstance(early[j], list) and early[j][1]:
+                replay_cache[res[i]["name"]] = tuple(early[j])
+        unk = [i for i in unk if res[i]["name"] not in replay_cache]
+    if unk and len(unk) <= 40:
+        for seed in (0, 7, 1234):
+            again = solve.solve_all([allobs[i] for i in unk], wall_ms=(wall or solve.WALL_MS) * 3, rlimit=solve.RLIMIT * 4, seed=seed)
+            for i, x in zip(unk, again):
+                if x["result"] != "unknown":
+                    x["backend"] += "+retry" + ("(seed %d)" % seed if seed else "")
+                    res[i] = x
+            unk = [i for i in unk if res[i]["result"] == "unknown"]
+            if not unk:
+                break
+        solve.SEED = 0
     i = 0
     for r in results:
         r.results = res[i:i + len(r.obs)]
@@ -156,8 +180,15 @@ def run_property(ctx, mod, units, t0):
             reported.add(v["obligation"])
             uniq.append(v)
         violations = uniq
-        for v in violations[:12]:
-            path, confirmed = replay.write(ctx, v)
+        shown = violations[:12]
+        # counter-models are replayed in parallel forked children (model search + sanitizer runs take tens of seconds each)
+        done = solve.pool_map(lambda k: list(replay_cache[shown[k]["obligation"]]) if shown[k]["obligation"] in replay_cache
+                              else list(replay.write(ctx, shown[k])), len(shown), 900)
+        for k, v in enumerate(shown):
+            if done[k] is None or isinstance(done[k], dict):
+                path, confirmed = replay.write(ctx, dict(v, ob=None, unitres=None))
+            else:
+                path, confirmed = done[k]
             nviol += 1
             suffix = "" if confirmed else " no-failing-input-found"
             lines.append("VIOLATION property=%s replay=%s obligation=%s%s" % (prop, path, v["obligation"][:160], suffix))
